@@ -29,6 +29,9 @@ trait Codec<'a> {
     }
     /// anchored input read into `other` (an arena the codec does not own)
     fn feed_from(&mut self, other: &mut ByteArena, d: &[u8]) -> Result<(), String>;
+    /// arena reads from a reader that delivers in short pieces with EINTR in between, two attempts per call; the caller
+    /// retries an Interrupted error and goes on after a short count, until the piece is through
+    fn feed_flaky(&mut self, d: &[u8], sched: Vec<i64>) -> Result<(), String>;
     /// read_n now, feed later (a producer that reads ahead of the codec)
     fn read_ahead(&mut self, d: &[u8]) -> Result<AnchoredSlice, String>;
     fn feed_held(&mut self, a: AnchoredSlice) -> Result<(), String>;
@@ -70,6 +73,23 @@ macro_rules! impl_encoder {
             }
             fn feed_read(&mut self, d: &[u8]) -> Result<(), String> {
                 $read(self, d)
+            }
+            fn feed_flaky(&mut self, d: &[u8], sched: Vec<i64>) -> Result<(), String> {
+                let mut rd = crate::stream::ScriptReader { data: d, pos: 0, sched, idx: 0, calls: 0 };
+                let mut fuel = 20 * d.len() + 100;
+                while rd.pos < d.len() && fuel > 0 {
+                    fuel -= 1;
+                    let want = d.len() - rd.pos;
+                    match self.read_n(&mut rd, want, NonZeroUsize::new(2).unwrap()) {
+                        Ok(a) => self.feed_held(a)?,
+                        Err(e) if e.kind() == std::io::ErrorKind::Interrupted => {}
+                        Err(e) => return Err(estr(e)),
+                    }
+                }
+                if rd.pos < d.len() {
+                    return Err("harness: flaky reader made no progress".into());
+                }
+                Ok(())
             }
             fn read_ahead(&mut self, d: &[u8]) -> Result<AnchoredSlice, String> {
                 self.read_n(d, d.len(), NonZeroUsize::MAX).map_err(estr)
@@ -122,6 +142,23 @@ macro_rules! impl_decoder {
             }
             fn feed_read(&mut self, d: &[u8]) -> Result<(), String> {
                 $read(self, d)
+            }
+            fn feed_flaky(&mut self, d: &[u8], sched: Vec<i64>) -> Result<(), String> {
+                let mut rd = crate::stream::ScriptReader { data: d, pos: 0, sched, idx: 0, calls: 0 };
+                let mut fuel = 20 * d.len() + 100;
+                while rd.pos < d.len() && fuel > 0 {
+                    fuel -= 1;
+                    let want = d.len() - rd.pos;
+                    match self.read_n(&mut rd, want, NonZeroUsize::new(2).unwrap()) {
+                        Ok(a) => self.feed_held(a)?,
+                        Err(e) if e.kind() == std::io::ErrorKind::Interrupted => {}
+                        Err(e) => return Err(estr(e)),
+                    }
+                }
+                if rd.pos < d.len() {
+                    return Err("harness: flaky reader made no progress".into());
+                }
+                Ok(())
             }
             fn read_ahead(&mut self, d: &[u8]) -> Result<AnchoredSlice, String> {
                 self.read_n(d, d.len(), NonZeroUsize::MAX).map_err(estr)
@@ -308,6 +345,10 @@ fn run_phase<'a, C: Codec<'a>>(
                         "read" => c.feed_read(piece),
                         "foreign" => c.feed_foreign(piece),
                         "shared" => c.feed_from(shared.get_or_insert_with(ByteArena::new), piece),
+                        "flaky" => c.feed_flaky(
+                            piece,
+                            op["sched"].as_array().map(|a| a.iter().map(|x| x.as_i64().unwrap()).collect()).unwrap_or_else(|| vec![1, 0, 2, 0, 0, 3]),
+                        ),
                         _ => panic!("harness: unknown feed method {m}"),
                     }
                 });
